@@ -72,7 +72,13 @@ def critical(c, r):
 
 def replay(ctx, binary, cases, timeout=3600):
     """like vlib.replay_behaviours, but failures of the harness itself (setup, gate timeouts) are inconclusive, never violations"""
-    res = ctx.run_engine(binary, [], cases, timeout=timeout)
+    # memory stays bounded: at most 4 engine processes at a time, each replaced after ~10 cases
+    res = []
+    for i in range(0, len(cases), 40):
+        part = cases[i:i + 40]
+        res += ctx.run_engine(binary, [], part, shards=min(4, max(1, len(part) // 4)), timeout=timeout)
+        for j, c in enumerate(cases):
+            c["n"] = j
     bad, harness = [], []
     for c, r in zip(cases, res):
         if r.get("skipped"):
@@ -119,21 +125,21 @@ def run(ctx):
     q = ctx.q
     # 1. exhaustive
     for cfg in q(["c35_proto_q1.cfg", "c35_proto_q2.cfg", "c35_stmt_quick.cfg", "c35_stmt_quick2.cfg"],
-                 ["c35_proto_t1.cfg", "c35_proto_t2.cfg", "c35_stmt_quick.cfg", "c35_stmt_t1.cfg"]):
+                 ["c35_proto_t1.cfg", "c35_proto_t2.cfg", "c35_stmt_quick.cfg", "c35_stmt_quick2.cfg"]):
         ctx.tlc_check("Remote.tla", cfg, timeout=q(2400, 7200))
     # 2. non-vacuity on broken designs
     if os.environ.get("VERIF_DEV_SKIP_TLC") != "1":
         nv = _bl.run_parallel([(lambda c=c, i=i: _bl.tlc_expect_violation(ctx, "Remote.tla", c, i)) for c, i in BROKEN], maxpar=3)
         ctx.cov["broken_variants_rejected"] = nv
     # 3. + 4. behaviours
-    sb = ctx.tlc_behaviours("Remote.tla", "c35_stmt_sim.cfg", num=q(30, 250), depth=18)
+    sb = ctx.tlc_behaviours("Remote.tla", "c35_stmt_sim.cfg", num=q(14, 60), depth=18)
     # the pusher's handle on a file remote is its own NomsBlockStore (its cached root is refreshed by AddTableFilesToManifest), on an
     # http remote a gRPC client (it is not): two generator configs (constant RefreshModes)
-    gb = [t for t in (trim(b) for b in ctx.tlc_behaviours("Remote.tla", "c35_gate_sim.cfg", num=q(40, 400), depth=36, seed=ctx.seed + 500)) if len(t) >= 8]
-    gh = [t for t in (trim(b) for b in ctx.tlc_behaviours("Remote.tla", "c35_gatehttp_sim.cfg", num=q(30, 300), depth=36, seed=ctx.seed + 900)) if len(t) >= 8]
+    gb = [t for t in (trim(b) for b in ctx.tlc_behaviours("Remote.tla", "c35_gate_sim.cfg", num=q(24, 120), depth=36, seed=ctx.seed + 500)) if len(t) >= 8]
+    gh = [t for t in (trim(b) for b in ctx.tlc_behaviours("Remote.tla", "c35_gatehttp_sim.cfg", num=q(16, 80), depth=36, seed=ctx.seed + 900)) if len(t) >= 8]
     # two clients that only commit, pull and push one branch: the schedules in which pushes overlap
-    gb += [t for t in (trim(b) for b in ctx.tlc_behaviours("Remote.tla", "c35_race_sim.cfg", num=q(40, 400), depth=32, seed=ctx.seed + 1300)) if len(t) >= 8]
-    gh += [t for t in (trim(b) for b in ctx.tlc_behaviours("Remote.tla", "c35_racehttp_sim.cfg", num=q(30, 300), depth=32, seed=ctx.seed + 1700)) if len(t) >= 8]
+    gb += [t for t in (trim(b) for b in ctx.tlc_behaviours("Remote.tla", "c35_race_sim.cfg", num=q(16, 100), depth=32, seed=ctx.seed + 1300)) if len(t) >= 8]
+    gh += [t for t in (trim(b) for b in ctx.tlc_behaviours("Remote.tla", "c35_racehttp_sim.cfg", num=q(12, 70), depth=32, seed=ctx.seed + 1700)) if len(t) >= 8]
     hs, hg = _bl.histogram(sb), _bl.histogram(gb + gh)
     ctx.cov["action_histogram"] = {"stmt": hs, "gate": hg}
     need = ["Push:ok", "Push:rejected", "PushForce:ok", "Fetch:ok", "Pull:ff", "Pull:merge", "Clone:ok", "PushTag:ok"]
